@@ -60,6 +60,9 @@ impl<K: KeyOfSetColumn, C: ConcurrentSet<Element = K::Element> + Default>
 
         #[cfg(feature = "verif")]
         qbice_verif_rt::point("in_memory_key_of_set_get_miss");
+        // no task switch while the bucket of the entry is locked
+        #[cfg(feature = "verif")]
+        let _no_switch = qbice_verif_rt::NoSwitch::enter();
 
         match self.map.entry_sync(key.clone()) {
             Entry::Occupied(occupied_entry) => {
@@ -96,6 +99,9 @@ impl<K: KeyOfSetColumn, C: ConcurrentSet<Element = K::Element> + Default>
 
         #[cfg(feature = "verif")]
         qbice_verif_rt::point("in_memory_key_of_set_insert_miss");
+        // no task switch while the bucket of the entry is locked
+        #[cfg(feature = "verif")]
+        let _no_switch = qbice_verif_rt::NoSwitch::enter();
 
         match self.map.entry_sync(key) {
             Entry::Occupied(occupied_entry) => {
